@@ -66,9 +66,20 @@ async fn run(cfg: Value) -> i32 {
                         "count" => "QUERY ev WHERE ty = \"ev\" COUNT".to_string(),
                         _ => format!("REPLAY ev FOR c{c}"),
                     };
+                    // number of passive buffers released before / after the read (hook counter): a read that
+                    // loses rows although no buffer was released while it ran cannot be the late-passive-read finding
+                    let cleared0 = snel_db::verif::count("flush.passive_cleared");
+                    let written0 = snel_db::verif::count("flush.written");
+                    snel_db::verif::step("client.read_begin", &format!("\"c\":{c},\"kind\":\"{kind}\",\"acked\":{}", before.len()));
                     let res = eng.cmd(&text).await;
+                    snel_db::verif::step("client.read_end", &format!("\"c\":{c}"));
+                    let cleared1 = snel_db::verif::count("flush.passive_cleared");
+                    // a segment directory was being written at some moment of the read: a flush had started by its end
+                    // that had not finished when it began
+                    let started1 = snel_db::verif::count("flush.start");
                     let after: Vec<i64> = issued.lock().unwrap().clone();
-                    let mut rec = json!({"op": "read", "kind": kind, "client": c, "before": before, "after": after});
+                    let mut rec = json!({"op": "read", "kind": kind, "client": c, "before": before, "after": after,
+                                         "released_during": cleared1 - cleared0, "writing_during": started1 > written0});
                     match res {
                         CmdOutcome::Response(d) if d.status == 200 => {
                             if kind == "count" {
